@@ -200,7 +200,7 @@ h!(c02_stbl_audio_opus_1, 40, { stbl_audio_body::<1, 175>(AudioCodec::Opus, 55) 
 h!(c02_stbl_audio_aac_0, 40, { stbl_audio_body::<0, 159>(AudioCodec::Aac(muxide::api::AacProfile::Lc), 75) });
 
 // ---- trak / mdia / minf hierarchy -----------------------------------------------------------
-//@ prop=C02 tier=quick cost=200 fns="muxer::mp4::build_trak_box,build_mdia_box,build_minf_box,build_stbl_box,build_tkhd_box,build_mdhd_box_with_timescale_and_duration,build_hdlr_box,build_vmhd_box,build_dinf_box" bound="video trak with 1 sample (symbolic size/duration/offset), language None" unwind=40 stubs="fmt::format" timeout=900 mem=16
+//@ prop=C02,C09 tier=quick cost=200 fns="muxer::mp4::build_trak_box,build_mdia_box,build_minf_box,build_stbl_box,build_tkhd_box,build_mdhd_box_with_timescale_and_duration,build_hdlr_box,build_vmhd_box,build_dinf_box" bound="video trak with 1 sample (symbolic size/duration/offset), language None" unwind=40 stubs="fmt::format" timeout=900 mem=16
 h!(c02_trak_video_1, 40, {
     let (sz, du, of): (u32, u32, u32) = (kani::any(), kani::any(), kani::any());
     kani::assume(sz > 0);
@@ -215,7 +215,7 @@ h!(c02_trak_video_1, 40, {
     assert!(be32(&v, md[0] + 24) == du, "mdhd duration = sum of sample durations");
     core::mem::forget(t);
 });
-//@ prop=C02 tier=thorough cost=200 fns="muxer::mp4::build_audio_trak_box,build_audio_mdia_box,build_audio_minf_box,build_audio_stbl_box,build_audio_tkhd_box,build_sound_hdlr_box,build_smhd_box" bound="Opus trak with 1 sample" unwind=40 stubs="fmt::format" timeout=900 mem=16
+//@ prop=C02,C09 tier=thorough tier_C09=quick cost=200 fns="muxer::mp4::build_audio_trak_box,build_audio_mdia_box,build_audio_minf_box,build_audio_stbl_box,build_audio_tkhd_box,build_sound_hdlr_box,build_smhd_box" bound="Opus trak with 1 sample" unwind=40 stubs="fmt::format" timeout=900 mem=16
 h!(c02_trak_audio_1, 40, {
     let (sz, du, of): (u32, u32, u32) = (kani::any(), kani::any(), kani::any());
     kani::assume(sz > 0);
